@@ -164,7 +164,7 @@ func genC11(t *testing.T) {
 		r := common.RngN("c11", uint64(i))
 		tk := ticks[r.IntN(len(ticks))]
 		A := fmt.Sprintf("A%d", tk)
-		c := &caseT{Cap: r.IntN(9), Tick: tk, FSeed: r.Uint64() % 100000, Mode: "pure"}
+		c := &caseT{Cap: wide(r, 9, 16, 64), Tick: tk, FSeed: r.Uint64() % 100000, Mode: "pure"}
 		T := 1 + r.IntN(20)
 		if r.IntN(3) == 0 {
 			c.Stage, c.N = "Unfold", 1+r.IntN(100)
